@@ -372,6 +372,50 @@ def o_exceptions(ctx):
                                 ite(Or(lt(900, n1 + n2), And(lt(400, n1), lt(400, n2))), 1, 0)))
 
 
+PAIR_EXCEPTION = {frozenset(('COO', 'HIS')): 'COO_HIS_exception', frozenset(('OCO', 'HIS')): 'OCO_HIS_exception',
+                  frozenset(('CYS', 'HIS')): 'CYS_HIS_exception', frozenset(('CYS',)): 'CYS_CYS_exception'}
+
+
+def o_exception_per_pair(ctx):
+    """the real hydrogen_bond_interaction on two real groups of every ordered pair of types: the value stays within twice the
+    side-chain maximum, apart from the exception value configured for THAT pair of types (the four burial exceptions
+    symbolic, so that one pair cannot borrow the value of another)"""
+    import propka.energy as E
+    from .c02 import mk_group
+    spec = {'COO': ('COOGroup', 'ASP', 'CG', -1, 'atom'), 'OCO': ('OCOGroup', 'LIG', 'C1', -1, 'hetatm'), 'HIS': ('HISGroup', 'HIS', 'CG', 1, 'atom'),
+            'CYS': ('CYSGroup', 'CYS', 'SG', -1, 'atom'), 'TYR': ('TYRGroup', 'TYR', 'OH', -1, 'atom'), 'LYS': ('LYSGroup', 'LYS', 'NZ', 1, 'atom')}
+    t1 = ctx.choice('type1', sorted(spec))
+    t2 = ctx.choice('type2', sorted(spec))
+    p = H.params(fresh=True)
+    exc = {}
+    for n in sorted(set(PAIR_EXCEPTION.values())):
+        exc[n] = ctx.real(n, 0.0, 4.0)
+        setattr(p, n, exc[n])
+    gs = []
+    for i, t in enumerate((t1, t2)):
+        cls, rn, an, q, rec = spec[t]
+        g = mk_group(cls, rn, 10 + 10 * i, an, q=q, p=p, rec=rec)
+        g.num_volume = ctx.int('num_volume%d' % i, 0, 1500)
+        gs.append(g)
+    x = ctx.real('distance', 0.5, 8.0)
+    H.set_xyz(gs[1].atom, x, 0.0, 0.0)
+    for g in gs:
+        g.set_interaction_atoms([g.atom], [g.atom])
+    v = H.version(p)
+    hb = E.hydrogen_bond_interaction(gs[0], gs[1], v)
+    if hb is None:
+        return
+    two = 2 * p.sidechain_interaction
+    name = PAIR_EXCEPTION.get(frozenset((t1, t2)))
+    ctx.claim('non-negative', ge(hb, 0))
+    if name is None:
+        ctx.claim('within-twice-the-side-chain-maximum', le(hb, two))
+    else:
+        ctx.claim('within-twice-the-maximum-or-the-exception-of-this-pair', Or(le(hb, two), eq(hb, exc[name])), detail='%s-%s: %s' % (t1, t2, name))
+        buried = Or(lt(900, gs[0].num_volume + gs[1].num_volume), And(lt(400, gs[0].num_volume), lt(400, gs[1].num_volume)))
+        ctx.claim('buried-pair-gets-its-own-exception-value', Implies(buried, eq(hb, exc[name])), detail='%s-%s: %s' % (t1, t2, name))
+
+
 def mutate_to_ala(txt, resnum):
     out = []
     for l in txt.split('\n'):
@@ -494,6 +538,12 @@ def obligations(tier):
                    claim_doc='sign(v) = sign(group charge); |v| <= 0.85'),
         Obligation('O10-exceptions', o_exceptions, code=[E + 'check_buried', E + 'hydrogen_bond_energy', E + 'calculate_pair_weight'],
                    bounds='num_volume in [0,5000]^2, dist in [0,100]', claim_doc='COO-COO exception <= 2*0.85; constants 1.6/3.6'),
+        Obligation('O10-exception-value-per-pair-of-types', o_exception_per_pair,
+                   code=[E + 'hydrogen_bond_interaction', E + 'check_exceptions', E + 'check_buried', E + 'check_coo_coo_exception', E + 'hydrogen_bond_energy',
+                         'propka/version.py:VersionA.calculate_side_chain_energy', 'propka/version.py:VersionA.get_hydrogen_bond_parameters'],
+                   bounds='two real groups of every ordered pair of types over {COO, OCO, HIS, CYS, TYR, LYS}, one interaction atom each at distance in [0.5,8], num_volume in [0,1500]^2, '
+                          'the four configured burial exception values symbolic in [0,4]',
+                   claim_doc='0 <= value <= 2*0.85, or the value is the exception configured for this (unordered) pair of types; a buried exception pair gets exactly its own value', max_paths=3000),
     ]
     els = [('C', 'CB', False), ('N', 'N', False), ('C', 'CA', False)]
     for sign in (-1, 1):
